@@ -212,9 +212,14 @@ func (l *c42Listener) cleanup() {
 			if c, err := net.DialTimeout(l.network(), l.addr, time.Second); err == nil {
 				_ = c.Close()
 			}
+			grace := l.idle + 3*time.Second
+			if c42NoReturn.Load() >= 3 {
+				grace = l.idle + 200*time.Millisecond
+			}
 			select {
 			case <-l.done:
-			case <-time.After(l.idle + 3*time.Second):
+			case <-time.After(grace):
+				c42NoReturn.Add(1)
 			}
 		}
 	}
